@@ -36,8 +36,19 @@ func LoadWordVectors(filepath string) (*Index, error) {
 		return nil, fmt.Errorf("failed to read vocab size: %w", err)
 	}
 
+	const dimension = 100 // GloVe 100d
+
+	// The header is not trusted for sizing: a damaged or truncated file may claim
+	// billions of words, and reserving room for them would exhaust memory.
+	if st, err := f.Stat(); err == nil {
+		maxWords := (st.Size() - 4) / int64(2+4*dimension) // every record is at least this long
+		if int64(vocabSize) > maxWords {
+			return nil, fmt.Errorf("word vector file is truncated or corrupt: header claims %d words, file can hold at most %d", vocabSize, maxWords)
+		}
+	}
+
 	idx := &Index{
-		Dimension:   100, // GloVe 100d
+		Dimension:   dimension,
 		WordVectors: make(map[string][]float32, vocabSize),
 	}
 
@@ -90,6 +101,14 @@ func (idx *Index) LoadCommandEmbeddings(filepath string) error {
 
 	if int(dimension) != idx.Dimension {
 		return fmt.Errorf("dimension mismatch: expected %d, got %d", idx.Dimension, dimension)
+	}
+
+	// The header is not trusted for sizing (see LoadWordVectors)
+	if st, err := f.Stat(); err == nil {
+		maxCommands := (st.Size() - 8) / int64(4*dimension)
+		if int64(numCommands) > maxCommands {
+			return fmt.Errorf("command embedding file is truncated or corrupt: header claims %d embeddings, file can hold at most %d", numCommands, maxCommands)
+		}
 	}
 
 	// Read embeddings
